@@ -162,10 +162,9 @@ def obligations(ex, which):
             has_ev = lambda kind, what=None: z3.BoolVal(any(e[0] == kind and (what is None or e[1] == what) for e in S.events))
             return z3.And(has_ev("call", "parse_metadata") == ctx.c1,
                           has_ev("call", "is_dummy") == z3.And(ctx.c1, ctx.c2),
-                          has_ev("now") == z3.And(ctx.c1, ctx.c2, ctx.c3),
                           has_ev("verify") == ctx.reach_verify(ctx.t_star))
-        per_path("the rules are evaluated in the documented order: metadata is parsed iff the pool is not full, the dummy test runs iff metadata parsed, the budget stage "
-                 "iff the key is not the dummy sentinel, the verifier iff budget remains (so a push is rejected by the FIRST rule it fails)", in_order)
+        per_path("the rules are evaluated in the documented order: metadata is parsed iff the pool is not full, the dummy test runs iff metadata parsed, "
+                 "the verifier iff the key is not the dummy sentinel and budget remains (so a push is rejected by the FIRST rule it fails; reading the clock is not a rule)", in_order)
 
         def admitted(S, ret, nows, ver):
             ni, nik = ctx.pre["ni"], ctx.pre["nik"]
